@@ -17,6 +17,12 @@ VARIANTS = {
     "ratrecon.static": ("ratrecon", 5, lambda a: a[:4], True),
     "ratrecon.zring": ("ratrecon", 5, lambda a: a[:4], True),
     "ratrecon.dflt": ("ratrecon", 3, lambda a: a + [1], True),
+    "ratrecon.zdflt": ("ratrecon", 3, lambda a: a + [1], True),
+    "ratrecon.fr1": ("ratrecon", 4, _id, True),
+    "ratrecon.zfr1": ("ratrecon", 4, _id, True),
+    "rr7.sdflt": ("rr7", 3, lambda a: a + [1, 1], True),
+    "rr7.fr1": ("rr7", 4, lambda a: a + [1], True),
+    "rr7.zfr1": ("rr7", 4, lambda a: a + [1], True),
     "rr7.static": ("rr7", 5, _id, True),
     "rr7.zring": ("rr7", 5, _id, True),
     "rr7.dflt": ("rr7", 3, lambda a: a + [1, 1], True),
@@ -107,6 +113,7 @@ def gen_k(rng, m):
     if c in (5, 6, 7): return max(1, s)
     if c == 8: return max(1, s + rng.range(-2, 2))
     if c == 9: return rng.range(1, min(m, 64))
+    if c == 10: return rng.choice([m + 1, 2 * m, m + rng.range(1, m)])      # outside the domain: the widening loops get there
     return rng.range(1, m)
 
 
@@ -168,14 +175,16 @@ def first_candidate(f, m, k):
 
 
 # ------------------------------------------------------------------ specification oracle
-def spec_check(op, a, out):
+def spec_check(op, a, out, extra=None):
     """returns list of (klass, message) for every clause of the property the implementation output violates.
-    Only inputs inside the property's domain are judged (m >= 2, 1 <= k <= m)."""
+    Only inputs inside the property's domain are judged (m >= 2, 1 <= k <= m; for ratrecon itself also k > m when the
+    residue is below k, which is what the widening loops produce).
+    extra = (num', den') of the reference call for the callers without a success report (out[0] is then its flag)."""
     ok, n, d = out
     bad = []
     if op == "ratrecon":
         f, m, k, fr = a
-        if not (m >= 2 and 1 <= k <= m): return bad
+        if not (m >= 2 and k >= 1 and (k <= m or f < k)): return bad
         if ok:
             kl = "in-domain"
             if (n - d * f) % m != 0: bad.append((kl, "num != den*f (mod m)"))
@@ -213,7 +222,9 @@ def spec_check(op, a, out):
             if not 0 < d <= bb: bad.append((kl, "den not in (0, b_bound]"))
             if math.gcd(n, d) != 1: bad.append(("unreduced", "gcd(num,den) != 1 (the result of ratrecon is ignored)"))
     elif op in ("ctor", "qfk", "qf"):
-        # no success report: the pair always satisfies the congruence, den > 0
+        # no success report: the pair always satisfies the congruence with den > 0; and when the reconstruction these
+        # callers are specified to perform first (Rational::ratrecon(f,m,k,flags)) reports success, the stored pair is
+        # that reconstruction: all four clauses hold, gcd = 1 under the Reduce flag
         if op == "qf":
             f, m, fl, rc = a; k = isqrt(m)
         else:
@@ -221,6 +232,10 @@ def spec_check(op, a, out):
         if not (m >= 2 and 1 <= k <= m): return bad
         if (n - d * f) % m != 0: bad.append(("in-domain", "num != den*f (mod m)"))
         if not d > 0: bad.append(("in-domain", "den <= 0"))
+        if extra is not None and ok:
+            if not abs(n) < k: bad.append(("in-domain", "|num| >= k although Rational::ratrecon reports a reconstruction"))
+            if fl and math.gcd(n, d) != 1: bad.append(("in-domain", "gcd(num,den) != 1 under the Reduce flag although Rational::ratrecon reports a reduced reconstruction"))
+            if not bad and (n, d) != extra: bad.append(("in-domain", "stored pair differs from the reconstruction %d/%d reported by Rational::ratrecon" % extra))
     return bad
 
 
@@ -239,9 +254,18 @@ def spec_complete(op, a, frac, out):
 
 def parse_out(line):
     t = line.split()
-    if len(t) != 3: return None
+    if len(t) not in (3, 5): return None
     try:
         return (int(t[0]), int(t[1]), int(t[2]))
+    except ValueError:
+        return None
+
+
+def parse_extra(line):
+    """(num', den') of the reference call printed by the variants without a success report"""
+    t = line.split()
+    try:
+        return (int(t[3]), int(t[4])) if len(t) == 5 else None
     except ValueError:
         return None
 
@@ -279,6 +303,35 @@ def gen_cases(rng, tier, chk):
                 for fr in (0, 1):
                     ia = [f, m, k, fr, 0]
                     cases.append(("ratrecon.static", "ratrecon", ia, ia[:4], None, "exhaustive", "tiny"))
+    # every call form x every combination of its boolean flags (and its default-argument forms) on inputs where the
+    # flags matter: the first Euclidean candidate is not coprime (second candidate taken or failure) -- small moduli
+    # exhaustively, larger ones from the smooth / prime-power generators
+    trip = []
+    for m in range(2, (8 if tier == "quick" else 14) + 1):
+        for f in range(-m - 1, 2 * m + 2):
+            for k in range(1, m + 1):
+                r1, t1, _ = first_candidate(f, m, k)
+                if math.gcd(r1, t1) != 1: trip.append((f, m, k, "tiny"))
+    want = len(trip) + (150 if tier == "quick" else 3000)
+    tries = 0
+    while len(trip) < want and tries < 40 * want:
+        tries += 1
+        mclass, m = gen_modulus(rng)
+        if mclass not in ("smooth", "pow2", "primepower", "composite-word"): continue
+        fclass, f, _ = gen_residue(rng, m)
+        k = rng.choice([max(1, isqrt(m)), gen_k(rng, m), 1, m])
+        if k > m: continue
+        r1, t1, _ = first_candidate(f, m, k)
+        if math.gcd(r1, t1) != 1: trip.append((f, m, k, mclass))
+    for f, m, k, mclass in trip:
+        for v in vs:
+            op, nargs, mp, _ = VARIANTS[v]
+            if op in ("rr4", "rr6"): continue
+            full = [f, m, k] if op != "qf" else [f, m]
+            nflags = nargs - len(full)
+            for bits in range(1 << nflags):
+                ia = full + [(bits >> j) & 1 for j in range(nflags)]
+                cases.append((v, op, ia, mp(list(ia)), None, "flag-combinations", mclass))
     # envelope enumeration: all a/b with b <= 64 inside the envelope for a set of moduli
     nm = 40 if tier == "quick" else 250
     for j in range(nm):
@@ -607,7 +660,7 @@ def main(tier, replay=None):
                     st("branch/first-candidate")
                 if nit == 0: st("branch/zero-iterations")
         # specification
-        for klass, msg in spec_check(op, ma, out):
+        for klass, msg in spec_check(op, ma, out, parse_extra(iout[i])):
             chk.fail_input("ratrecon:" + VARIANTS[v][0], klass, case, msg, iout[i], msg)
         exp = spec_complete(op, ma, frac, out)
         if exp is not None:
